@@ -1,5 +1,5 @@
 import DcmVerif.Proofs.Code_lookup
-/-! The tie by proof (dcmmeta.py: NiftiWrapper.meta_valid, get_meta index arithmetic): functions translated from the Python source on every run
+/-! The tie by proof (dcmmeta.py: NiftiWrapper.get_meta, meta_valid): functions translated from the Python source on every run
 (`tools/gen_code.py` → `Generated/Code_lookup.lean`) are the model functions the property theorems speak about.
 Statements only; proofs are by reference to `Proofs/Code_lookup.lean`. One file per function group, so that an edit
 of one function only unsettles the properties that depend on it. -/
@@ -29,7 +29,19 @@ theorem meta_valid_is_model (e : ExtGeom) (img : Img) (c : Cls)
       .ok (metaValid e img c) :=
   Src.meta_valid_eq e img c hisd hesd h4
 
-/-- the translator translated every function of this group (dcmmeta.py: NiftiWrapper.meta_valid, get_meta index arithmetic) -/
+/-- **`get_meta` as written in dcmmeta.py is the model's `getMeta`**: an absent key and a classification that is not valid for the
+    image give the default, a constant its value whatever the index, every other key the value at the position the index
+    arithmetic of its classification computes — or IndexError for an index of the wrong length or out of bounds -/
+theorem get_meta_is_model (e : ExtGeom) (shape : List Nat) (sd : Nat) (al : Bool) (ks : KeyState α) (index : Option (List Nat))
+    (h3 : 3 ≤ shape.length) (h5 : shape.length ≤ 5) (hsd3 : sd < 3)
+    (hesd : ∀ d, e.sliceDim = some d → d < e.shape.length)
+    (h4 : ∀ c v, ks = some (c, v) → c = vslices → 3 < e.shape.length ∧ 3 < shape.length) :
+    toGetOut (Py.get_meta shape e.shape (some sd) (e.sliceDim.map fun d => e.shape[d]!) al
+        (match ks with | some (_, v) => v | none => []) (ks.map (·.1)) index) =
+      getMeta e ⟨shape, some sd, al⟩ ks index :=
+  Src.get_meta_eq e shape sd al ks index h3 h5 hsd3 hesd h4
+
+/-- the translator translated every function of this group (dcmmeta.py: NiftiWrapper.get_meta, meta_valid) -/
 theorem translator_complete_lookup : Gen.codeMissing_lookup = [] := rfl
 
 end Source
